@@ -1754,7 +1754,7 @@ def set_add(I: Interp, s: VList, x: V) -> None:
         # a set known by its membership predicate only: pointwise update
         old = s.member
         s.member = lambda v, old=old, x=x: z3.Or(_b(old(v)), _b(mk_eq(I, v, x)))
-        s.n = z3.Int(I.fresh_name("set_n"))
+        s.n = s.n + z3.If(_b(old(x)), 0, 1)  # the size grows iff the element is new
         return
     assert s.items is not None
     for y in s.items:
